@@ -148,6 +148,21 @@ def judge(ctx, parser, PErr, s, origin):
         return
     structural = any(c in s for c in '@[]:/.>')
     ctx.evaluated(s, structural)
+    # the same string given again to the same (long-lived) parser must be judged the same way
+    ctx.counters['judged'] += 1
+    if origin != 'exhaustive' or ctx.counters['judged'] % 3 == 0:
+        try:
+            got2 = structure_of(parser.parse(s))
+            out2 = ACCEPT
+        except PErr:
+            out2, got2 = REJECT, None
+        except Exception as e:
+            out2, got2 = 'raises ' + type(e).__name__, None
+        ctx.count('reparsed_same_string')
+        if out2 != outcome or got2 != got:
+            ctx.violate('same-string-parsed-twice-differs/%s-then-%s' % (outcome, out2),
+                        'parse(%r) on the same parser: first %s %r, then %s %r' % (s, outcome, got, out2, got2), dict(string=s, twice=True))
+            return
     if verdict == UNSPEC:
         ctx.count('unspecified')
     elif verdict == ACCEPT:
